@@ -335,3 +335,54 @@ def gen_state_doc(r):
     if r.random() < 0.15:
         top = [gen_form_tree(r)]      # no html/body wrapper
     return kind, top
+
+
+# ---------------------------------------------------------------------------------------------
+# markup materialisation (parsers)
+# ---------------------------------------------------------------------------------------------
+def esc_attr(v):
+    return v.replace('&', '&amp;').replace('"', '&quot;').replace('<', '&lt;')
+
+
+def esc_text(v):
+    return v.replace('&', '&amp;').replace('<', '&lt;').replace('>', '&gt;')
+
+
+def to_markup(nodes, xml=False):
+    out = []
+    for n in nodes:
+        if n[0] == 'e':
+            _, name, prefix, ns, attrs, kids = n
+            qn = f'{prefix}:{name}' if prefix else name
+            a = ''.join(f' {k}="{esc_attr(" ".join(v) if isinstance(v, list) else v)}"' for k, v in attrs)
+            inner = to_markup(kids, xml)
+            if xml and not inner:
+                out.append(f'<{qn}{a}/>')
+            else:
+                out.append(f'<{qn}{a}>{inner}</{qn}>')
+        elif n[0] == 't':
+            out.append(esc_text(n[1]))
+        elif n[0] == 'c':
+            out.append('<!--' + n[1].replace('--', '- -') + '-->')
+        elif n[0] == 'cd' and xml:
+            out.append('<![CDATA[' + n[1] + ']]>')
+        elif n[0] == 'pi' and xml:
+            out.append('<?' + (n[1].replace('?>', '') or 'x') + '?>')
+    return ''.join(out)
+
+
+def parse_variants(top, xhtml_ns=True):
+    """The same logical tree through every installed parser. Returns {name: soup}."""
+    from bs4 import BeautifulSoup
+    body = to_markup(top)
+    html = f'<!DOCTYPE html><html><head></head><body>{body}</body></html>'
+    xbody = to_markup(top, xml=True)
+    xhtml = f'<?xml version="1.0"?><html xmlns="http://www.w3.org/1999/xhtml"><head/><body>{xbody}</body></html>'
+    xml = f'<?xml version="1.0"?><root>{xbody}</root>'
+    return {
+        'html.parser': BeautifulSoup(html, 'html.parser'),
+        'lxml': BeautifulSoup(html, 'lxml'),
+        'html5lib': BeautifulSoup(html, 'html5lib'),
+        'xhtml': BeautifulSoup(xhtml, 'xml'),
+        'xml': BeautifulSoup(xml, 'xml'),
+    }
